@@ -59,7 +59,7 @@ def lean_type(t):
         if t[0] == "List": return f"(List {lean_type(t[1])})"
         if t[0] == "Tup": return "(" + " × ".join(lean_type(x) for x in t[1]) + ")"
     return {"Str": "String", "Bool": "Bool", "Nat": "Nat", "Num": "α", "Strata": "Strata", "Comp": "Comp", "Flow": "(Flow α)",
-            "Strat": "(Strat α)", "Adj": "(Adj α)", ADJDICT: "(List (String × Option (Adj α)))", "Expr": "(Expr α)",
+            "Strat": "(Strat α)", "Adj": "(Adj α)", "ExprBox": "(Expr α)", ADJDICT: "(List (String × Option (Adj α)))", "Expr": "(Expr α)",
             "IdxDict": "(List (String × List Nat))"}[t]
 
 
@@ -78,7 +78,9 @@ ATTRS = {
     ("Comp", "name"): ("{0}.name", "Str"),
     ("Comp", "strata"): ("{0}.strata", "Strata"),
     ("Flow", "name"): ("{0}.name", "Str"),
-    ("Flow", "param"): ("{0}.param", "Expr"),
+    ("Flow", "param"): ("{0}.param", "ExprBox"),
+    ("ExprBox", "obj"): ("{0}", "Expr"),
+    ("Adj", "param"): ("(Adj.expr {0})", "ExprBox"),
     ("Flow", "adjustments"): ("{0}.adjs", Lst("Adj")),
     ("Flow", "source"): ("{0}.src", Opt("Comp")),
     ("Flow", "dest"): ("{0}.dst", Opt("Comp")),
@@ -241,6 +243,23 @@ class Translator:
             raise Untranslatable("division " + ast.unparse(n))
         if isinstance(n, (ast.ListComp, ast.GeneratorExp)):
             return self.listcomp(n, cx)
+        if isinstance(n, ast.Subscript) and isinstance(n.slice, ast.Constant) and n.slice.value == 0:
+            base = self.expr(n.value, cx)
+            if isinstance(base[1], tuple) and base[1][0] == "List" and base[1][1] == "Expr":
+                # `l[0]` raises IndexError on an empty list; the tie theorem shows the list is never empty (the fallback is never used)
+                return (f"(Py.headOr {base[0]} {cx.env['f'][0]}.param)", "Expr")
+            raise Untranslatable("subscript " + ast.unparse(n))
+        if isinstance(n, ast.Subscript) and isinstance(n.slice, ast.Slice) and n.slice.upper is None and n.slice.step is None \
+                and isinstance(n.slice.lower, ast.Constant) and isinstance(n.slice.lower.value, int):
+            base = self.expr(n.value, cx)
+            if isinstance(base[1], tuple) and base[1][0] == "List":
+                return (f"({base[0]}.drop {n.slice.lower.value})", base[1])
+            raise Untranslatable("slice " + ast.unparse(n))
+        if isinstance(n, ast.BinOp) and isinstance(n.op, ast.Mult):
+            a, b = self.expr(n.left, cx), self.expr(n.right, cx)
+            if a[1] == "Expr" and b[1] == "Expr":
+                return (f"(Expr.mul {a[0]} {b[0]})", "Expr")
+            raise Untranslatable("product " + ast.unparse(n))
         if isinstance(n, ast.Subscript) and isinstance(n.value, ast.Name) and isinstance(n.slice, ast.Constant) and isinstance(n.slice.value, str):
             base = cx.env.get(n.value.id)
             if base and isinstance(base[1], tuple) and base[1][0] == "Rec":
@@ -419,6 +438,10 @@ class Translator:
                         c2.env[v] = (v + "_", it[1][1])
                         b = self.expr(g.elt, c2)
                         return (f"({it[0]}.any (fun {v}_ => {self.truthy(b)}))", "Bool")
+            if f.id == "isinstance" and len(n.args) == 2 and ast.unparse(n.args[1]) == "Overwrite":
+                a = self.expr(n.args[0], cx)
+                if a[1] == "Adj":
+                    return (f"(Py.isOverwrite {a[0]})", "Bool")
             if f.id == "Multiply" and len(n.args) == 1:
                 a = self.expr(n.args[0], cx)
                 if a[1] == "Num":
@@ -586,7 +609,7 @@ class Translator:
                 fields[p] = (f"(some {t[0]})", Opt("Comp"))
             elif t != ("none", Opt("Comp")) and t[1] != Opt("Comp"):
                 raise Untranslatable(f"{concrete}.__init__ field {p} has type {t[1]}")
-        if fields["name"] is None or fields["name"][1] != "Str" or fields["param"] is None or fields["param"][1] != "Expr" \
+        if fields["name"] is None or fields["name"][1] != "Str" or fields["param"] is None or fields["param"][1] not in ("Expr", "ExprBox") \
                 or fields["adjustments"] is None:
             raise Untranslatable(f"{concrete}.__init__ does not set name/param/adjustments as expected")
         return {k: v[0] for k, v in fields.items()}, asserted
@@ -864,6 +887,13 @@ class Translator:
                 raise Untranslatable("type test " + ast.unparse(st.test))
             branch = st.body if ty == "Str" else st.orelse
             return self.block(list(branch) + rest, cx, k, ind)
+        if ast.unparse(st.test).startswith("isinstance(") and ast.unparse(st.test).endswith(", Data)") and not st.orelse:
+            inner = [x for x in ast.walk(st) if isinstance(x, ast.Assign)]
+            v = ast.unparse(st.test.args[0])
+            if len(inner) == 1 and ast.unparse(inner[0]) == f"{v} = {v}.data":
+                self.notes.append(f"value-preserving unboxing treated as the identity: {ast.unparse(st.test)}")
+                return self.block(rest, cx, k, ind)
+            raise Untranslatable("Data unboxing idiom " + ast.unparse(st).splitlines()[0])
         c, tk, ek = self.cond(st.test, cx)
         joined = self.try_join(st, c, tk, ek, rest, cx, k, ind)
         if joined is not None:
@@ -1111,7 +1141,9 @@ class Translator:
     # ---------------------------------------------------------------------------------------- functions
     def module_function(self, fname):
         """the index-selecting prefix of a module-level builder function (up to, not including, the stop statement)"""
-        rel, params, ret, stop, retvar = MODULE_FUNCS[fname]
+        spec = MODULE_FUNCS[fname]
+        rel, params, ret, stop, retvar = spec[:5]
+        opts = spec[5] if len(spec) > 5 else {}
         fn = None
         for n in self.tree(rel).body:
             if isinstance(n, ast.FunctionDef) and n.name == fname:
@@ -1137,7 +1169,16 @@ class Translator:
                 binders.append(f"({pname} : {lean_type(t)})")
         body = []
         stopped = False
-        for st in fn.body:
+        stmts = fn.body
+        if opts.get("loop_target"):
+            loops = [st for st in fn.body if isinstance(st, ast.For) and ast.unparse(st.target) == opts["loop_target"]]
+            if len(loops) != 1:
+                raise Untranslatable(f"{fname}: expected exactly one `for {opts['loop_target']} in …` loop")
+            stmts = loops[0].body
+            for vn, vt in opts["loop_env"].items():
+                cx.env[vn] = (vn, vt)
+                binders.append(f"({vn} : {lean_type(vt)})")
+        for st in stmts:
             if ast.unparse(st).startswith(stop):
                 stopped = True
                 break
@@ -1152,7 +1193,7 @@ class Translator:
                 raise Untranslatable(f"{fname}: {retvar} has type {v[1]}")
             return ["  " * i + v[0]]
         lines = self.block(body, cx, fall, 1)
-        head = f"/-- `{rel}::{fname}` (the index selection, up to `{stop}`) -/\ndef {fname} " + " ".join(binders) + f" : {lean_type(ret)} :="
+        head = f"/-- `{rel}::{fname}` (the part up to `{stop}`) -/\ndef {fname} " + " ".join(binders) + f" : {lean_type(ret)} :="
         return head + "\n" + "\n".join(lines)
 
     def function(self, rel, cname, mname, variant=None):
@@ -1196,6 +1237,10 @@ MODULE_FUNCS = {
     "build_flow_output": ("runner/jax/derived_outputs.py",
                           [("request", ("Rec", "FlowReq")), ("name", None), ("times", None), ("model_flows", Lst("Flow")), ("idx_cache", None)],
                           Lst("Nat"), "flow_indices = jnp.array(flow_indices)", "flow_indices"),
+    # the body of `for i, f in enumerate(m.flows)` of map_flow_keys: the realised weight expression of one flow
+    "map_flow_keys": ("parameters/param_impl.py",
+                      [("m", None)], "Expr", "realised_flows[i] = GraphObjectParameter(out_func)", "out_func",
+                      {"loop_target": "(i, f)", "loop_env": {"f": "Flow"}}),
     "build_compartment_output": ("runner/jax/derived_outputs.py",
                                  [("request", ("Rec", "CompReq")), ("name", None), ("compartments", Lst("Comp"))],
                                  Lst("Nat"), "def summed_compartment_outputs", "indices"),
@@ -1233,6 +1278,7 @@ LOCAL_TYPES = {
     ("BaseExitFlow", "stratify", "new_adjustments"): Lst(Opt("Adj")),
     ("BaseTransitionFlow", "stratify", "new_adjustments"): Lst(Opt("Adj")),
     ("build_flow_output", "build_flow_output", "flow_indices"): Lst("Nat"),
+    ("map_flow_keys", "map_flow_keys", "full_flow"): Lst("Expr"),
     ("Stratification", "_stratify_compartments", "strat_base_indices"): Lst("Nat"),
     ("Stratification", "_stratify_compartments", "passthrough_base_indices"): Lst("Nat"),
     ("Stratification", "_stratify_compartments", "passthrough_target_indices"): Lst("Nat"),
